@@ -233,6 +233,11 @@ def handle (line : String) : String :=
           let dropPix (es : List Elem) : List Elem := es.filter fun e => match e with | .pix _ _ => false | _ => true
           if portionFail then s!"PROP-FAIL class=collector-portion-failed {portions.map treeStr}" else
           if portions.length ≠ stopTags.length + 1 then "BAD-LINE portions" else
+          -- `read_dataset_up_to(stop)` excludes the stop tag: a portion holds only elements below its stop tag
+          let beyond := (List.zip stopTags portions).any fun (st, p) => match p with
+            | .ok es => es.any fun e => !(e.tag.lt st)
+            | _ => false
+          if beyond then "PROP-FAIL class=portion-beyond-stop a portion read with read_dataset_up_to(stop) holds an element with tag ≥ stop" else
           if !sameElems portionEs wEs then
             (if sameElems (dropPix portionEs) (dropPix wEs) && !nested then pixClass "portions"
              else if nested && (elemsAnyPix (elemsOfList wEs)) then pixClass "portions (nested pixel data)"
